@@ -231,6 +231,12 @@ pub fn run_op(fam: &str, name: &str, input: &Value) -> Value {
                 let sched: Vec<crate::aread::Step> = input["sched"].as_array().unwrap().iter().map(crate::aread::Step::from_json).collect();
                 crate::aread::run_script(&frames, input["cut"].as_u64().unwrap() as usize, input["maxlen"].as_u64().unwrap() as u32, &sched)
             }
+            #[cfg(feature = "io")]
+            "awrite" => {
+                let vals = crate::awrite::vals_from_json(&input["vals"]);
+                let sched: Vec<crate::awrite::Step> = input["sched"].as_array().unwrap().iter().map(crate::awrite::Step::from_json).collect();
+                crate::awrite::run_script(&vals, input["maxlen"].as_u64().unwrap() as u32, &sched)
+            }
             _ => json!({"p":"unsupported"})
         }
     })
